@@ -138,6 +138,54 @@ def main():
                         mism.append(dict(where, kind='pinned-after-return', sweep_at=j, real=left2))
                 if len(mism) > 30:
                     break
+        # range searches, minKey / maxKey and range iteration: the comparison sequence is not specified, but a
+        # sweep inside any of their comparisons must not change the answer (taken from a run without sweep) nor
+        # the comparisons, and nothing may stay pinned
+        nk = len(ent['calls']['get'])
+        qs = []
+        for lo in range(0, nk + 1):
+            for hi in (0, lo, nk - 1, nk):
+                for xlo, xhi in ((False, False), (True, True)):
+                    qs.append(('keys', lo, hi, xlo, xhi))
+        for b in range(1, nk + 1):
+            qs += [('minKey', b, 0, False, False), ('maxKey', b, 0, False, False)]
+        if job.get('query_every', 1) > 1:
+            qs = qs[(ei % job['query_every'])::job['query_every']]
+        for q in qs:
+            def qcall(t, q=q):
+                kind, lo, hi, xlo, xhi = q
+                try:
+                    if kind == 'keys':
+                        kw = dict(min=K(lo) if lo else None, max=K(hi) if hi else None, excludemin=xlo, excludemax=xhi)
+                        return ['ks', [x.v for x in (t.keys(**kw) if (lo + hi) % 2 else t.iterkeys(**kw) if hasattr(t, 'iterkeys') else t.keys(**kw))]]
+                    return ['v', getattr(t, kind)(K(lo)).v]
+                except ValueError:
+                    return ['ValueError']
+                except Exception as e:
+                    return ['exc', type(e).__name__]
+            saved = call
+            call = lambda t, op, k: qcall(t)
+            try:
+                res, log, left, pj = run(path_acts, 'query', 0)
+                counts['calls'] += 1
+                where = dict(impl=impl, is_set=is_set, sizes=[job['leaf'], job['internal']], tree=tree, op='%s%s' % (q[0], list(q[1:])), k=0)
+                if left:
+                    mism.append(dict(where, kind='pinned-after-return', real=left))
+                for j in range(len(log)):
+                    res2, log2, left2, pj2 = run(path_acts, 'query', 0, sweep_at=j)
+                    counts['sweeps'] += 1
+                    if res2 != res or pj2 != pj:
+                        mism.append(dict(where, kind='sweep-changes-outcome', sweep_at=j, model=[res, pj], real=[res2, pj2]))
+                    if [x[:3] for x in log2] != [x[:3] for x in log]:
+                        mism.append(dict(where, kind='sweep-changes-comparisons', sweep_at=j, model=[x[:3] for x in log], real=[x[:3] for x in log2]))
+                    if left2:
+                        mism.append(dict(where, kind='pinned-after-return', sweep_at=j, real=left2))
+            finally:
+                call = saved
+            if len(mism) > 30:
+                break
+        if len(mism) > 30:
+            break
     embed.restore_sizes(old)
     json.dump(dict(counts=counts, mismatches=mism[:40]), open(sys.argv[2], 'w'))
 
